@@ -12,6 +12,7 @@ import (
 	"strings"
 
 	vuego "github.com/titpetric/vuego"
+	xhtml "golang.org/x/net/html"
 
 	"verifharness/core"
 	"verifharness/oracle"
@@ -237,7 +238,7 @@ func (g *c02Gen) block(depth int) string {
 	if g.nodes > 14 {
 		return "<p>" + g.text() + "</p>"
 	}
-	switch g.r.Intn(14) {
+	switch g.r.Intn(15) {
 	case 0, 1:
 		var b strings.Builder
 		tag := core.Pick(g.r, []string{"div", "section", "article", "main", "header"})
@@ -307,11 +308,22 @@ func (g *c02Gen) block(depth int) string {
 		case 1:
 			return fmt.Sprintf("<pre%s>%s <em>%s</em>\n    %s</pre>", g.attrs(), g.text(), g.text(), g.text())
 		}
+		if g.r.Chance(1, 3) {
+			// content that begins with a line break: the parser drops the first newline after <pre>, the second is text
+			return fmt.Sprintf("<pre%s>\n\n%s\n  %s</pre>", g.attrs(), g.text(), g.text())
+		}
 		return fmt.Sprintf("<pre%s>%s\n  %s</pre>", g.attrs(), g.text(), g.text())
 	case 11:
 		return fmt.Sprintf(`<svg%s viewBox="0 0 10 10"><circle cx="5" cy="5" r="4"></circle><path d="M0 0L1 1" fill="%s"></path><text>%s</text></svg>`, g.attrs(), g.attrVal(), g.text())
 	case 12:
 		return fmt.Sprintf("<blockquote%s><p>%s</p></blockquote>", g.attrs("cite"), g.inline(1))
+	case 13:
+		// elements whose content an HTML parser (scripting enabled, as in a browser) reads as raw text
+		return core.Pick(g.r, []string{
+			`<noscript><img src="/p.gif?a=1&amp;b=2" alt=""></noscript>`,
+			fmt.Sprintf(`<noscript%s><p>%s</p></noscript>`, g.attrs(), core.Pick(g.r, c02Words)),
+			`<iframe src="/f"><a href="/f">open</a></iframe>`,
+		})
 	default:
 		return fmt.Sprintf(`<form%s action="/s?x=1&amp;y=2"><label>%s</label><input type="checkbox" checked><select><option value="%s">%s</option></select><button%s>%s</button></form>`, g.attrs(), g.text(), g.attrVal(), g.text(), g.attrs(), g.text())
 	}
@@ -370,7 +382,7 @@ func (g *c02Gen) document() string {
 
 type c02Entry struct {
 	name string
-	doc  bool // can render full documents faithfully (file based)
+	doc  bool // is given full documents as well (every entry point is)
 	run  func(src string) (string, error)
 }
 
@@ -379,13 +391,13 @@ func c02Entries() []c02Entry {
 		return func(src string) (string, error) { return f(memFS(map[string]string{"page.vuego": src})) }
 	}
 	return []c02Entry{
-		{"RenderString", false, func(src string) (string, error) { return renderStr(src, nil) }},
-		{"RenderByte", false, func(src string) (string, error) {
+		{"RenderString", true, func(src string) (string, error) { return renderStr(src, nil) }},
+		{"RenderByte", true, func(src string) (string, error) {
 			var b bytes.Buffer
 			err := vuego.New().RenderByte(bg, &b, []byte(src))
 			return b.String(), err
 		}},
-		{"RenderReader", false, func(src string) (string, error) {
+		{"RenderReader", true, func(src string) (string, error) {
 			var b bytes.Buffer
 			err := vuego.New().RenderReader(bg, &b, strings.NewReader(src))
 			return b.String(), err
@@ -449,13 +461,16 @@ func (p *c02) checkStatic(o *core.Obs, c c02Case, src string, doc bool, part str
 		}
 		got := oracle.Parse(out, doc)
 		d := oracle.Diff(want, got, nil)
-		brNoted := false
+		brNoted, rawNoted := false, false
 		for d != nil {
 			if !brNoted && c02HasBr(want) && (d.Kind == "extra" && d.B == "<br>" || d.Kind == "name" && d.B == "br" || d.Kind == "kind" && d.B == "<br>" || d.Kind == "missing" || d.Kind == "text") {
 				// the void element <br> is written as <br></br>, which parses as two breaks:
 				// classify it once, then compare the rest with the doubled breaks folded
 				g2 := oracle.Parse(out, doc)
 				c02DedupeBr(g2)
+				if rawNoted {
+					c02UnescapeRaw(g2)
+				}
 				if d2 := oracle.Diff(want, g2, nil); d2 == nil || d2.String() != d.String() {
 					o.Fail(c, part+"/void-br-doubled", "<br> is emitted as <br></br>, which an HTML5 parser reads as two line breaks: %s\nsource: %s\noutput: %s", d, clip(src, 400), clip(out, 400))
 					brNoted = true
@@ -463,6 +478,14 @@ func (p *c02) checkStatic(o *core.Obs, c c02Case, src string, doc bool, part str
 					d = d2
 					continue
 				}
+			}
+			if !rawNoted && d.Kind == "text" && (d.Where == "noscript" || d.Where == "iframe") {
+				// classify once, then compare the rest with the escaping of these elements undone
+				o.Fail(c, part+"/markup-in-noscript-or-iframe-escaped", "the content of <%s> is raw text for an HTML parser with scripting enabled, the engine writes it escaped: %s\nsource: %s\noutput: %s", d.Where, d, clip(src, 400), clip(out, 400))
+				rawNoted = true
+				c02UnescapeRaw(got)
+				d = oracle.Diff(want, got, nil)
+				continue
 			}
 			cls := oracle.ElementClass(d.Where)
 			o.Fail(c, fmt.Sprintf("%s/%s/%s/%s", part, e.name, d.Kind, cls), "parse(output) differs from parse(template): %s\nsource: %s\noutput: %s", d, clip(src, 600), clip(out, 600))
@@ -493,6 +516,21 @@ func (p *c02) checkStatic(o *core.Obs, c c02Case, src string, doc bool, part str
 	} else {
 		o.Cell(part + "/fragment")
 	}
+}
+
+// c02UnescapeRaw undoes the escaping of the text of <noscript> / <iframe> in a
+// parsed output (the finding is reported once; the rest is compared without it).
+func c02UnescapeRaw(root *oracle.N) {
+	root.Walk(func(n *oracle.N) {
+		if n.Kind == "el" && (n.Name == "noscript" || n.Name == "iframe") {
+			for _, k := range n.Kids {
+				if k.Kind == "text" {
+					k.Raw = xhtml.UnescapeString(k.Raw)
+					k.Text = oracle.NormText(k.Raw)
+				}
+			}
+		}
+	})
 }
 
 func (p *c02) Exec(ctx core.Ctx, cc any) core.Obs {
